@@ -7,7 +7,6 @@
      member <anchor> <trace_> <ev>...     -> T iff <trace_> (spaces written as '_') is the trace of the history
                                              for SOME pop order of every batch (prio fields are ignored and
                                              every permutation is tried; pref fields are used as given)
-     excluded <anchor> <ev>...            -> N | i1 | i2 | i3   (Spec.ChainSpec.excluded)
      best_weight <anchor> <h.p.w,...>     -> maximum weight of a chain from the anchor (spec)
      load <h.p,...;prio> ...              -> finder state after loading the batches into an empty ChainFinder *)
 let split c s = if s = "" then [] else String.split_on_char c s
@@ -56,7 +55,7 @@ let nkey h = let s = show_n h in (String.length s, s)
 let sort_by f l = List.sort (fun a b -> compare (f a) (f b)) l
 let canon_dict d = sort_by (fun (k, _) -> nkey k) d
 (* the order of trees_from_bottom is observable through lock_to_index's generator when some stored tree ends at
-   a hash that has meanwhile become known (only after a defective batch): such states keep their order *)
+   a hash that has meanwhile become known (impossible under the proved invariant): such states keep their order *)
 let stale cf = List.exists (fun (_, l) -> match List.rev l with t :: _ -> List.mem_assoc t cf.pl | [] -> false) cf.tfb
 let canon_finder cf = { pl = canon_dict cf.pl; dbt = canon_dict (List.map (fun (k, s) -> (k, sort_by nkey s)) cf.dbt);
                         tfb = if stale cf then cf.tfb else canon_dict cf.tfb }
@@ -99,7 +98,6 @@ let dispatch f args = match f, args with
     let us = List.map (String.map (fun c -> if c = ' ' then '_' else c)) all in
     if List.mem t us then "T" else "F " ^ string_of_int (List.length all) ^ " " ^ String.concat " | " all
   | "count", a :: evs -> string_of_int (List.length (all_traces (hx a) (List.map parse_pev evs)))
-  | "excluded", a :: evs -> show_option show_n (excluded (hx a) (List.map parse_event evs))
   | "best_weight", [a; hs] -> show_z (c15_best_weight (List.map parse_hdr (split ',' hs)) (hx a))
   | "load", batches ->
     let rec go cf = function
